@@ -2,7 +2,8 @@
    Model: Sched.v.  Inv is the conjunction of invariants proved for every history
    from boot (Proofs/SchedBatch.v: run_Inv). *)
 From Coq Require Import List Arith ZArith Bool.
-From DV Require Import Model.Sched Proofs.SchedLib Proofs.SchedBatch Proofs.SchedC04.
+From DV Require Import Model.Sched Model.SchedFault Proofs.SchedLib Proofs.SchedBatch Proofs.SchedC04
+  Proofs.SchedFaultProofs.
 Import ListNotations.
 
 (* PROGRESS (target units).  In every history from boot, when the pipeline is active
@@ -130,3 +131,46 @@ Example C04_progress_example :
   In 1 (todo (getn (ns s) 1)) /\ todo (getn (ns s) 0) = [] /\ doing (getn (ns s) 0) = [] /\
   map (fun p => (fst p, m_job (snd p), m_tgt (snd p))) (inflight (fst (dispatch c04_chain s))) = [(2, 1, 1)].
 Proof. vm_compute. repeat split; auto. Qed.
+
+(* ---- a database that refuses a run id during a dispatch (Model/SchedFault.v:
+   TickFault k; farm.dispatch keeps the jobs it could not turn into messages
+   and the next dispatch takes them up again) ---- *)
+(* a history without such a fault is a history of Sched.v: every theorem above
+   speaks about it *)
+Theorem C04_fault_free_is_sched : forall c xs es s,
+  erase xs = Some es -> xrun c s xs = fst (run c s es).
+Proof. exact xrun_erase. Qed.
+Print Assumptions C04_fault_free_is_sched.
+
+(* the refused request loses nothing: the job at which it happened and every
+   later job of the batch are exactly as the release left them (their released
+   targets still in do_) and are still held by the farm *)
+Theorem C04_fault_keeps_jobs : forall c js k acc acc' raised,
+  NoDup js ->
+  put_jobs_fault c k js acc = (acc', raised) -> raised = true ->
+  exists done kept x,
+    js = done ++ x :: kept /\
+    (forall y, In y (x :: kept) -> getn (ns (fst acc')) y = getn (ns (fst acc)) y) /\
+    (forall y, In y (x :: kept) -> In y (jobs (fst acc)) -> In y (jobs (fst acc'))).
+Proof. exact fault_keeps_jobs. Qed.
+Print Assumptions C04_fault_keeps_jobs.
+
+(* recovery: from ANY state (jobs kept by a refused run id included) an ordinary
+   dispatch of an active pipeline leaves no job with the farm: all are turned
+   into task messages.  PARTIAL: the invariants of C01/C04_progress are proved
+   for fault-free histories only (they assume the farm holds no job between
+   events); histories with faults are covered by the correspondence and the
+   oracle, not by those theorems. *)
+Theorem C04_dispatch_empties_jobs : forall c s, active s = true -> jobs (fst (dispatch c s)) = [].
+Proof. exact dispatch_empties_jobs. Qed.
+Print Assumptions C04_dispatch_empties_jobs.
+
+Example C04_fault_example :
+  let c := {| gnodes := [ {| kids := []; anc := []; gfac := Task; lvl := 0; ins := [] |};
+                          {| kids := []; anc := []; gfac := Task; lvl := 0; ins := [] |} ];
+              gfb := []; gtargets := [1] |} in
+  let s1 := xrun c (init c) [Ev (Reg 1 0 true); Ev (Org [0; 1] None [1]); TickFault 2] in
+  let s2 := xrun c s1 [Ev Tick] in
+  jobs s1 = [1] /\ do_ (getn (ns s1) 1) = [1] /\ length (cluster s1) + length (inflight s1) = 1 /\
+  jobs s2 = [] /\ length (cluster s2) + length (inflight s2) = 2.
+Proof. vm_compute. repeat split; reflexivity. Qed.
